@@ -7,14 +7,14 @@ OUT=/verif/selftest/RESULTS.txt
 cd /repo && git worktree remove --force $WT 2>/dev/null; git worktree prune; git worktree add --detach $WT HEAD >/dev/null 2>&1 || exit 2
 : > $OUT.tmp
 fail=0
-grep -v '^#' /verif/selftest/cases.txt | while read patch prop want; do
+grep -v '^#' /verif/selftest/cases.txt | while read patch prop kind want; do
   [ -z "$patch" ] && continue
   git -C $WT checkout -q -- .
   if ! git -C $WT apply /verif/selftest/$patch; then echo "$patch $prop APPLY-FAILED" | tee -a $OUT.tmp; continue; fi
   r=$(GOVC_FULL_SECS=${GOVC_FULL_SECS:-45} /verif/bin/govc check -property $prop -repo $WT -no-evidence 2>&1)
-  if echo "$r" | grep "^VIOLATION" | grep -qF "$want"; then v=DETECTED; else v="NOT-DETECTED"; fi
+  if echo "$r" | grep "^$kind" | grep -qF "$want"; then v=DETECTED; else v="NOT-DETECTED"; fi
   n=$(echo "$r" | grep -c "^VIOLATION")
-  echo "$patch $prop $v (violations=$n; expected obligation containing '$want')" | tee -a $OUT.tmp
+  echo "$patch $prop $v (violations=$n; expected a $kind line containing '$want')" | tee -a $OUT.tmp
 done
 git -C $WT checkout -q -- .
 cd /repo && git worktree remove --force $WT; git worktree prune
